@@ -2478,10 +2478,10 @@ class TaskPool:
 
         This also performs required spawning / state changing for edge cases.
         """
-        if not flow_nums or (flow_nums == itask.flow_nums):
+        if not flow_nums or flow_nums.issubset(itask.flow_nums):
             # Don't do anything if:
             # 1. merging from a no-flow task, or
-            # 2. same flow (no merge needed); can arise
+            # 2. same flow(s) (no merge needed); can arise
             # downstream of an AND trigger (if "A & B => C"
             # and A spawns C first, B will find C is already in the pool),
             # and via suicide triggers ("A =>!A": A tries to spawn itself).
